@@ -148,11 +148,23 @@ def fresh_default_path(shard, rec):
 
 def file_events_ok(w, cwd, allowed):
     bad = []
+
+    def in_cwd(path):
+        p = os.path.realpath(os.path.join(cwd, path))
+        return os.path.basename(p) if os.path.dirname(p) == os.path.realpath(cwd) else None
+
+    def transient(path):
+        # a scratch file in the working directory that exists neither before nor after the call (written, then renamed onto the report)
+        n = in_cwd(path)
+        return n is not None and n not in w._before and n not in w._after
     for ev in w.events:
         if ev[0] == "open-for-write":
-            p = os.path.realpath(os.path.join(cwd, ev[1]))
-            if os.path.dirname(p) == os.path.realpath(cwd) and os.path.basename(p) in allowed:
+            if in_cwd(ev[1]) in allowed or transient(ev[1]):
                 continue
+        elif ev[0] == "os.rename" and transient(ev[1]) and in_cwd(ev[2]) in allowed:
+            continue
+        elif ev[0] == "os.remove" and transient(ev[1]):
+            continue
         bad.append(ev)
     for n in w.created + w.changed:
         if n not in allowed:
